@@ -218,7 +218,13 @@ func startServer(c Case) (*wsServer, error) {
 	transfer := c.Path == "blocking-transfer" || c.Path == "std-transfer"
 	handler := http.HandlerFunc(func(w http.ResponseWriter, r *http.Request) {
 		var err error
-		if transfer {
+		if c.Path == "std-handleread" {
+			// the application starts the read loop itself, with a buffer size of its choice
+			var wc *websocket.Conn
+			if wc, err = u.UpgradeWithoutHandlingReadForConnFromSTDServer(w, r, nil); err == nil {
+				go wc.HandleRead(509)
+			}
+		} else if transfer {
 			_, err = u.UpgradeAndTransferConnToPoller(w, r, nil)
 		} else {
 			_, err = u.Upgrade(w, r, nil)
@@ -244,7 +250,7 @@ func startServer(c Case) (*wsServer, error) {
 		return nil, err
 	}
 	switch c.Path {
-	case "std-readloop", "std-transfer":
+	case "std-readloop", "std-transfer", "std-handleread":
 		ln, err := net.Listen("tcp", "127.0.0.1:0")
 		if err != nil {
 			engine.Stop()
@@ -604,7 +610,7 @@ func runCase(c Case) vlib.Result {
 	return res
 }
 
-var paths = []string{"nb", "blocking-parser", "std-readloop", "blocking-transfer", "std-transfer"}
+var paths = []string{"nb", "blocking-parser", "std-readloop", "blocking-transfer", "std-transfer", "std-handleread"}
 
 func cells() []Case {
 	var out []Case
@@ -686,7 +692,7 @@ func gen(t *rapid.T) Case {
 func TestCheck(t *testing.T) {
 	r := vlib.NewRunner(t, "C14")
 	vlib.RunCases(r, "cells", cells(), runCase, true)
-	r.MarkExhaustive("matrix cells upgrade path x send mode x epoll mode (30 cells, four fixed workloads each: application close from another goroutine while a handler runs (with asynchronous reading in half of the cells), orderly close, client reset while a handler runs and writes, pings and pongs behind every message with slow handlers)")
+	r.MarkExhaustive("matrix cells upgrade path x send mode x epoll mode (36 cells, four fixed workloads each: application close from another goroutine while a handler runs (with asynchronous reading in half of the cells), orderly close, client reset while a handler runs and writes, pings and pongs behind every message with slow handlers)")
 	vlib.RunCheck(r, vlib.Check[Case]{Name: "sessions", N: r.Pick(900, 12000), Gen: gen, Run: runCase, Confirm: true, RecordCurrent: true})
 	vlib.RunCases(r, "glued-handshake", gluedCells(), runGlued, true)
 	vlib.RunCases(r, "client-dial-cells", clientCells(), runClientCase, true)
